@@ -1,14 +1,15 @@
 """C10 — user dataflow specifications are applied exactly as written (engine P, exhaustive matrix enumeration).
 Alphabet: all signatures of arity <=3 (each parameter string or *string) with <=2 results; ALL 0/1 Args (off-diagonal)
 and Rets matrices; forms {function, value-receiver method, pointer-receiver method, interface method contract,
-interface contract + contradicting function contract}. The body of the specified function implements the COMPLEMENT
+interface contract + contradicting function contract, call through a function value, interface call whose only
+implementation has a function contract, bound method value}. The body of the specified function implements the COMPLEMENT
 flow, so consulting the body is observable. Oracle: the matrix itself - every listed flow must be reported (missing)
 and nothing outside the transitive closure of the matrix may be reported (spurious). Eager and on-demand."""
 import sys
 sys.path.insert(0, '/verif/lib')
 import vlib
 
-ALL = 'func,methodV,methodP,iface,ifaceBoth'
+ALL = 'func,methodV,methodP,iface,ifaceBoth,fvalue,ifaceImplSpec,mvalue'
 TIERS = {'quick': [dict(arity=2, forms=ALL), dict(arity=3, forms='func', only_arity=3)],
          'thorough': [dict(arity=3, forms=ALL)]}
 
